@@ -168,6 +168,17 @@ CHECKS['C15'] = dict(
     note='trusted: TLC, Reaction.tla, Cx.tla; molecules that do not survive their own text are outside the read-back clause (C02 decides those)',
     technique='TLC validation of recorded reaction signatures, read-backs and condensed graphs against Reaction.tla (text, superposition, centre)',
     design='5/C15')
+CHECKS['C14'] = dict(
+    text='Histories of normalisation calls (canonicalize, standardize, fix_resonance, standardize_charges, neutralize, explicify / implicify, kekule, '
+         'thiele, enumerate_tautomers; pairs of equal calls, explicify-implicify round trips, random call sequences) are recorded on corpus '
+         'molecules, charged / zwitterionic / resonance specials, every documented raw spelling of the rule tests alone and grafted on corpus '
+         'molecules, and on a renumbered twin.  TLC evaluates on every step the conservation laws (heavy-atom multiset always; net charge and '
+         'hydrogens for rearrangements, charge minus hydrogens for neutralisation and tautomers; no valence error, no failure on valid input), '
+         'idempotence and the explicify/implicify inverse on consecutive calls, equivariance against the twin in the aromatic normal form, '
+         'distinctness of tautomers, and that one standardize() call gives the documented spelling.',
+    note='trusted: TLC, Normalize.tla; numbering independence with tautomer fixing is claimed on the fixed corpus only (as the property states)',
+    technique='TLC validation of recorded normalisation histories against the action properties of Normalize.tla',
+    design='5/C14')
 PENDING = {}
 
 
